@@ -11,7 +11,8 @@ package main
 //   verdict on those comes from TLC.
 //
 // Units: every heading text, paragraph word, list item, table cell and image
-// description carries a unique token u%06d numbered in document order; chunk
+// description IS a unique token u%06d numbered in document order (no untracked
+// content words, so a chunk without a token has no content at all); chunk
 // texts are scanned for the tokens after removing all whitespace, so a split
 // inside a token is still attributed.
 
@@ -127,8 +128,8 @@ func c12Words(class, max int) int {
 
 type c12Rendered struct {
 	doc     *model.Document
-	n       []int          // units per element
-	first   []int          // first unit per element (1-based), 0 if none
+	n       []int // units per element
+	first   []int // first unit per element (1-based), 0 if none
 	total   int
 	titleEl map[string]int // heading text -> element index (1-based)
 	unitEl  []int          // unit -> element index (1-based); unitEl[0] unused
@@ -177,7 +178,7 @@ func c12Render(c *c12Case, max int, mode string) *c12Rendered {
 		bbox := model.BBox{X: 72, Y: y, Width: 400, Height: 20}
 		switch e.K {
 		case "H":
-			txt := toks[0] + " Sec"
+			txt := toks[0] // every content word is a tracked unit: the title is the token
 			r.titleEl[txt] = i + 1
 			p.Elements = append(p.Elements, &model.Heading{Text: txt, Level: e.A, BBox: bbox, FontSize: 20})
 			p.Layout.Headings = append(p.Layout.Headings, model.HeadingInfo{Level: e.A, Text: txt, BBox: bbox, FontSize: 20, Confidence: 1})
@@ -192,7 +193,7 @@ func c12Render(c *c12Case, max int, mode string) *c12Rendered {
 					sb.WriteByte('.')
 				}
 			}
-			if n == 1 && i+1 < len(c.Doc) && c.Doc[i+1].K == "L" && i%2 == 0 {
+			if e.A <= 2 && i+1 < len(c.Doc) && c.Doc[i+1].K == "L" && i%3 != 2 {
 				sb.WriteByte(':') // a list introduction
 			}
 			p.Elements = append(p.Elements, &model.Paragraph{Text: sb.String(), BBox: bbox, FontSize: 11})
@@ -200,7 +201,7 @@ func c12Render(c *c12Case, max int, mode string) *c12Rendered {
 		case "L":
 			items := make([]model.ListItem, n)
 			for j, t := range toks {
-				items[j] = model.ListItem{Text: t + " item", Level: j % 3, Bullet: "-"}
+				items[j] = model.ListItem{Text: t, Level: j % 3, Bullet: "-"}
 			}
 			ordered := i%2 == 1
 			p.Elements = append(p.Elements, &model.List{Items: items, Ordered: ordered, BBox: bbox})
@@ -222,7 +223,7 @@ func c12Render(c *c12Case, max int, mode string) *c12Rendered {
 		case "I":
 			alt := ""
 			if n == 1 {
-				alt = toks[0] + " figure"
+				alt = toks[0]
 			}
 			p.Elements = append(p.Elements, &model.Image{AltText: alt, BBox: bbox})
 		}
@@ -249,14 +250,15 @@ func c12Render(c *c12Case, max int, mode string) *c12Rendered {
 var c12TokRe = regexp.MustCompile(`u[0-9]{6}`)
 
 type c12Obs struct {
-	Units []int  `json:"units"`
-	Index int    `json:"index"`
-	ID    string `json:"id"`
-	Ps    int    `json:"ps"`
-	Pe    int    `json:"pe"`
-	Path  []int  `json:"path"`
-	Total int    `json:"total"`
+	Units  []int    `json:"units"`
+	Index  int      `json:"index"`
+	ID     string   `json:"id"`
+	Ps     int      `json:"ps"`
+	Pe     int      `json:"pe"`
+	Path   []int    `json:"path"`
+	Total  int      `json:"total"`
 	Titles []string `json:"titles,omitempty"`
+	Text   string   `json:"text,omitempty"` // only for a chunk without any unit
 }
 
 func c12Strip(s string) string {
@@ -326,6 +328,12 @@ func c12Project(chunks []*rag.Chunk, r *c12Rendered, api string) []c12Obs {
 				}
 			}
 		}
+		if len(o.Units) == 0 {
+			o.Text = ch.Text
+			if len(o.Text) > 120 {
+				o.Text = o.Text[:120]
+			}
+		}
 		obs[i] = o
 	}
 	return obs
@@ -355,10 +363,17 @@ func c12Events(c *c12Case, r *c12Rendered, obs []c12Obs, cfg c12Cfg, mode string
 	if cfg.api == "layout" {
 		minor = 4 // ChunkerConfig.MinHeadingLevel = 3: deeper headings are content
 	}
-	evs := []Event{{"event": "Doc", "els": els, "pages": c.Pages, "minor": minor, "tag": cfg.api + ":" + mode, "cfg": cfg.name}}
+	// "case" lets a rejected segment be re-run (driver mode tracecase); the trace
+	// specification does not read it
+	rc := map[string]interface{}{"doc": c.Doc, "pages": c.Pages, "lnorm": c.Lnorm, "only_cfg": cfg.name, "only_mode": mode}
+	evs := []Event{{"event": "Doc", "els": els, "pages": c.Pages, "minor": minor, "tag": cfg.api + ":" + mode, "cfg": cfg.name, "case": rc}}
 	totals := make([]int, len(obs))
 	for i, o := range obs {
-		evs = append(evs, Event{"event": "Emit", "rs": c12Runs(o.Units), "index": o.Index, "id": o.ID, "ps": o.Ps, "pe": o.Pe, "path": o.Path})
+		ev := Event{"event": "Emit", "rs": c12Runs(o.Units), "index": o.Index, "id": o.ID, "ps": o.Ps, "pe": o.Pe, "path": o.Path}
+		if o.Text != "" {
+			ev["text"] = o.Text
+		}
+		evs = append(evs, ev)
 		totals[i] = o.Total
 	}
 	evs = append(evs, Event{"event": "Finish", "totals": totals})
@@ -516,7 +531,9 @@ func c12Feature(c *c12Case, r *c12Rendered, f *c12Fail, cfg c12Cfg, mode string)
 			return s
 		}
 	case "page-range":
-		return mode
+		if cfg.api == "elem" {
+			return mode // "addpage": the numbers were lost when the document was assembled
+		}
 	}
 	return ""
 }
@@ -652,6 +669,9 @@ func c12Record(in, out string) error {
 					e.K, e.A = "P", 1+rnd.Intn(4)
 				case x < 8:
 					e.K, e.A = "L", 1+rnd.Intn(6)
+					if rnd.Intn(6) == 0 {
+						e.A = 40 + rnd.Intn(60) // larger than the small maximum chunk size
+					}
 				case x < 9:
 					e.K, e.A = "T", 2*(1+rnd.Intn(3))
 				default:
@@ -700,8 +720,33 @@ func c12Record(in, out string) error {
 	})
 }
 
+// c12TraceCase re-runs one (document, configuration, page mode) and returns its
+// trace segment; used to replay a violation that trace validation found.
+func c12TraceCase(i int, raw []byte) Result {
+	var c c12Case
+	if err := json.Unmarshal(raw, &c); err != nil {
+		return fail("decode", "decode", err.Error(), nil)
+	}
+	res := Result{OK: true}
+	for _, cfg := range c12Configs() {
+		if cfg.name != c.OnlyCfg {
+			continue
+		}
+		r := c12Render(&c, cfg.maxChars, c.OnlyMode)
+		chunks, err := c12Run(cfg, r.doc)
+		res.Evals++
+		if err != nil {
+			return fail("error", "C12:error:"+cfg.api, cfg.name+": "+err.Error(), map[string]interface{}{"case": json.RawMessage(raw)})
+		}
+		res.Events = append(res.Events, c12Events(&c, r, c12Project(chunks, r, cfg.api), cfg, c.OnlyMode)...)
+	}
+	return res
+}
+
 func c12(mode, in, out string) error {
 	switch mode {
+	case "tracecase":
+		return runCases(in, out, c12TraceCase)
 	case "replay":
 		return runCases(in, out, c12ReplayCase)
 	case "record":
